@@ -298,7 +298,7 @@ def run(ctx, replay=None):
                     if len(prev) <= nprev:
                         ncases.append((nprev, rep, dur, prev))
         vcases = []
-        names = ["a.net1", "a.net2", "b.net1"]
+        names = ["a.vms.vm1.nets.net1", "a.vms.vm1.nets.net2", "b.vms.vm1.nets.net1"]      # the same test on two workers is two tests
         for k in range(0, 4):
             for combo in itertools.product(itertools.product(names[:2] if k > 2 else names, WORDS[:7]), repeat=k):
                 if k < 3 or rng.random() < 0.15:
